@@ -33,6 +33,9 @@ pub struct PsetSpec {
     /// Some(n): the n-th real PSET of the repository's own vectors instead of a generated one
     #[serde(default)]
     pub corpus: Option<u32>,
+    /// 1: exactly 10 000 (minimal) inputs, 2: exactly 10 000 outputs, 3: both — the largest counts the decoder admits
+    #[serde(default)]
+    pub at_count_limit: u8,
 }
 
 impl PsetSpec {
@@ -52,6 +55,7 @@ impl PsetSpec {
             elip: p.chance(1, 3),
             globals: p.chance(2, 3),
             corpus: None,
+            at_count_limit: if p.chance(1, 4000) { 1 + p.below(3) as u8 } else { 0 },
         }
     }
     pub fn draw_with_corpus(p: &mut Prng, one_in: u64) -> PsetSpec {
@@ -70,6 +74,7 @@ impl PsetSpec {
             }
         };
         push(PsetSpec { corpus: None, ..self.clone() });
+        push(PsetSpec { at_count_limit: 0, ..self.clone() });
         push(PsetSpec { n_in: self.n_in / 2, ..self.clone() });
         push(PsetSpec { n_out: self.n_out / 2, ..self.clone() });
         push(PsetSpec { n_in: self.n_in.saturating_sub(1), ..self.clone() });
@@ -586,6 +591,19 @@ pub fn pset(s: &PsetSpec) -> Pset {
     }
     for _ in 0..s.n_out {
         ps.add_output(output(&mut p, s, s.n_in));
+    }
+    if s.at_count_limit & 1 != 0 {
+        let txid = gen::txid(&mut p);
+        while ps.n_inputs() < 10_000 {
+            let k = ps.n_inputs() as u32;
+            ps.add_input(Input::from_prevout(elements::OutPoint::new(txid, k)));
+        }
+    }
+    if s.at_count_limit & 2 != 0 {
+        let a = gen::asset_id(&mut p);
+        while ps.n_outputs() < 10_000 {
+            ps.add_output(Output::new_explicit(Script::new(), ps.n_outputs() as u64, a, None));
+        }
     }
     if s.elip {
         use elements::pset::elip100::{AssetMetadata, TokenMetadata};
